@@ -91,6 +91,17 @@ comparison of `check_type`, plus the bounds when the source compares them (`elem
 def elementAccepted (x e : BTy) : Bool :=
   checkType ⟨eraseBounds x, 1⟩ (eraseBounds e) && (if elementBoundsChecked then boundsFit x e else true)
 
+/-- the bounds every element aggregate and every declared element type carries in the refinement's value universe (the
+harness builds them so: `ARRAY [1:2]`, `LIST / BAG / SET [0:?]` at every level) -/
+def harnessBounds : Kind → Int × Option Int
+  | .array => (1, some 2)
+  | _ => (0, none)
+
+/-- a type of the refinement (`Ty`, up to bounds) with those bounds put back -/
+def canon : Ty → BTy
+  | .simple t => .simple t
+  | .agg k b => .agg k (harnessBounds k).1 (harnessBounds k).2 (canon b)
+
 /-- `check_type` raises `TypeError` -/
 def typeMismatch (x : Val) (expected : Ty) : Prop := ¬ (checkType x expected = true)
 
